@@ -56,6 +56,26 @@ func rawTLVs(r *Rng) []byte {
 	var b []byte
 	n := r.Pick([]int{0, 1, 2, 3, 5, 9})
 	tags := []uint16{0x0005, 0x0204, 0x0424, 0x1400, 0x0005, 0x0001, 0xFFFF, uint16(r.U64()), genTag(r), genTag(r), 0x020C, 0x020E, 0x020F}
+	put := func(tag uint16, v []byte) {
+		b = append(b, byte(tag>>8), byte(tag), byte(len(v)>>8), byte(len(v)))
+		b = append(b, v...)
+	}
+	if r.Intn(5) == 0 {
+		// TLVs that belong together, all present, with the lengths the standard gives them or an empty value in one of them:
+		// segmentation (sar_msg_ref_num 2, sar_total_segments 1, sar_segment_seqnum 1), ports (2, 2), payload type + payload
+		switch r.Intn(3) {
+		case 0:
+			put(0x020C, biasedBytes(r, 2))
+			put(0x020E, biasedBytes(r, r.Pick([]int{1, 1, 0})))
+			put(0x020F, biasedBytes(r, r.Pick([]int{1, 1, 0})))
+		case 1:
+			put(0x020A, biasedBytes(r, r.Pick([]int{2, 2, 0, 1})))
+			put(0x020B, biasedBytes(r, r.Pick([]int{2, 2, 0, 1})))
+		default:
+			put(0x0019, biasedBytes(r, r.Pick([]int{1, 0})))
+			put(0x0424, biasedBytes(r, r.Pick([]int{0, 1, 20})))
+		}
+	}
 	for i := 0; i < n; i++ {
 		tag := tags[r.Intn(len(tags))] // duplicates and unsorted order on purpose; standard tags, the segmentation triple together
 		l := r.Pick([]int{0, 0, 1, 2, 7, 30})
